@@ -30,8 +30,9 @@ SegNearest(c, i, px, py) ==
 NearestSet(c, px, py) ==
   LET n    == Len(Knots(c.U)) - 1
       cand == {SegNearest(c, i, px, py) : i \in 1..n}
-      m    == CHOOSE x \in {r.d2 : r \in cand} : \A y \in {r.d2 : r \in cand} : Le(x, y)
-  IN [d2 |-> m, us |-> SeqOfSet({r.u : r \in {q \in cand : q.d2 = m}})]
+  IN IF \E r \in cand : IsNaR(r.d2) \/ IsNaR(r.u) THEN [d2 |-> NaR, us |-> <<>>]     \* arithmetic left the range
+     ELSE LET m == CHOOSE x \in {r.d2 : r \in cand} : \A y \in {r.d2 : r \in cand} : Le(x, y)
+          IN [d2 |-> m, us |-> SeqOfSet({r.u : r \in {q \in cand : q.d2 = m}})]
 
 (* proper (transversal, interior or end-touching excluded) crossing of segment i of A and j of B *)
 Cross(ux, uy, vx, vy) == Sub(Mul(ux, vy), Mul(uy, vx))
